@@ -19,7 +19,7 @@ run() { # patch id
 	local sig=$(grep -m1 "signature:" work/suite.log | sed 's/.*signature: //')
 	printf "%s\t%s\t%s\t%s\t%s\n" "${p#/verif/}" "$id" "$rc" "$sig" "$(( $(date +%s)-s ))" | tee -a $OUT
 }
-for d in seeded/*/; do
+for d in seeded/*/; do [ -f $d/meta.json ] || continue
 	n=$(basename $d); case "$n" in *$F*) ;; *) continue;; esac
 	id=$(jq -r .property $d/meta.json)
 	run /verif/$d/patch.diff $id
